@@ -156,6 +156,8 @@ def gen_cases(tier):
             if k <= 2 and any(st.startswith("inact") for _, st in inputs):
                 for b in ("rename", "clear"):
                     yield dict(inputs=[list(x) for x in inputs], pal=pal, rs_list=False, rails=False, by_rail=False, pol=1, bounce=b)
+            if k <= 3:  # per-input resistances written with a negative sign
+                yield dict(inputs=[list(x) for x in inputs], pal=pal, rs_list="neg", rails=False, by_rail=False, pol=1)
             if k <= 3:  # the mux with a 2-D ground-current table (looked up at the selected input's voltage)
                 yield dict(inputs=[list(x) for x in inputs], pal=pal, rs_list=False, rails=False, by_rail=False, pol=1, ig_table=True)
             if k <= 3:  # the mux itself sleeping in one phase (draws iis from the SELECTED input) / active in the other
